@@ -130,7 +130,9 @@ pub fn run(thorough: bool) -> Report {
     }
 
     // 3. Argument dispatch through the interpreter.
-    let args = ["1", "0.5", "1000000000", "0", "-1", "-0.5"];
+    // (the last one is the IEEE negative zero: a zero all the same)
+    let args = ["1", "0.5", "1000000000", "0", "-1", "-0.5", "-0"];
+    const NARGS: usize = 7;
     // (5) RND inside RND's argument, and RUN: neither may disturb the generator
     {
         for &seed in &[0u64, 1, 12345, (1 << 33) - 1, 1 << 44] {
@@ -183,11 +185,19 @@ pub fn run(thorough: bool) -> Report {
             seqs.push(decode_seq(i, 6, len));
         }
     }
+    for len in 1..=3 {
+        for i in 0..pow(NARGS as u64, len) {
+            let q = decode_seq(i, NARGS as u64, len);
+            if q.contains(&(NARGS - 1)) {
+                seqs.push(q);
+            }
+        }
+    }
     // second family: rejected calls and re-seeding of a used interpreter mixed in (items 6..=10)
     for len in 1..=4 {
-        for i in 0..pow(11, len) {
-            let q = decode_seq(i, 11, len);
-            if q.iter().any(|k| *k >= 6) {
+        for i in 0..pow(NARGS as u64 + 5, len) {
+            let q = decode_seq(i, NARGS as u64 + 5, len);
+            if q.iter().any(|k| *k >= NARGS) {
                 seqs.push(q);
             }
         }
@@ -199,9 +209,20 @@ pub fn run(thorough: bool) -> Report {
         .par_iter()
         .flat_map_iter(|seq| {
             let mut out = vec![];
-            for &seed in &disp_seeds {
+            for (&seed, shadowed) in disp_seeds.iter().flat_map(|sd| [(sd, false), (sd, true)]) {
+                if shadowed && seq.len() > 3 {
+                    continue;
+                }
                 let mut s = Sess::new();
-                let mut hist = vec![Ev::Randomize(seed)];
+                let mut hist = vec![];
+                if shadowed {
+                    // a program has DEFined functions named like the builtins: calls still reach RND
+                    for e in [Ev::Line("10 DEF RND(X)=5: DEF INT(X)=9".into()), Ev::LineToIdle("RUN".into())] {
+                        let _ = s.apply(&e);
+                        hist.push(e);
+                    }
+                }
+                hist.push(Ev::Randomize(seed));
                 if let CallResult::Panic(p) = s.apply(&Ev::Randomize(seed)) {
                     out.push(Violation {
                         signature: format!("dispatch randomize panic {}", short_panic(&p)),
@@ -213,18 +234,18 @@ pub fn run(thorough: bool) -> Report {
                 let mut model = seed % LCG_M;
                 let mut stepped = false;
                 for &a in seq {
-                    if a >= 9 {
+                    if a >= NARGS + 3 {
                         // the host seeds a used interpreter: the sequence restarts from that seed
-                        let sd = reseeds[a - 9];
+                        let sd = reseeds[a - NARGS - 3];
                         hist.push(Ev::Randomize(sd));
                         let _ = s.apply(&Ev::Randomize(sd));
                         model = sd % LCG_M;
                         stepped = false;
                         continue;
                     }
-                    if a >= 6 {
+                    if a >= NARGS {
                         // a call the parser rejects is not a call: the generator must not move
-                        let line = malformed[a - 6].to_string();
+                        let line = malformed[a - NARGS].to_string();
                         hist.push(Ev::Line(line.clone()));
                         let before = guarded(|| s.it.verif_snapshot().rng_state).unwrap_or(0);
                         let r = s.apply(&Ev::Line(line.clone()));
